@@ -118,6 +118,11 @@ type eng struct {
 	faults   bool
 	pending  map[string]*attemptRec // fresh dial per backend addr awaiting its request
 	filt     *filters
+	peerAddr []string // socket peer address per client conn (C29)
+	seenAddr map[int]string // req.ClientAddr observed by a generated filter, per request id
+	spoof    bool // C29: address-spoofing headers
+	accEnc   bool // C54: Accept-Encoding variants
+	hostile  bool // C25: hostile header names / values / targets
 }
 
 // ---- generation ---------------------------------------------------------------
@@ -244,6 +249,44 @@ func (e *eng) genReq(id, conn int) *reqPlan {
 		p.Fields = append(p.Fields, href.Field{"Accept", "text/event-stream"})
 	} else if tp.Chance(1, 3, "ua") {
 		p.Fields = append(p.Fields, href.Field{"User-Agent", "sim/1.0"}, href.Field{"Accept", "*/*"})
+	}
+	if e.hostile {
+		// C25: bytes that must not be able to add fields or messages downstream
+		switch tp.Draw(9, "hostile") {
+		case 0:
+			p.Fields = append(p.Fields, href.Field{"X-Inj", "a\rX-Injected: 1"})
+		case 1:
+			p.Fields = append(p.Fields, href.Field{"X-Inj", "a\x00b"})
+		case 2:
+			p.Fields = append(p.Fields, href.Field{"X-Inj", "caf\xc3\xa9 \xff\xfe"})
+		case 3:
+			p.Fields = append(p.Fields, href.Field{"X-Fold", "line1\r\n continued: not-a-header"})
+		case 4:
+			p.Path = fmt.Sprintf("/r%d/x%%0d%%0aX-Injected:%%201?q=1", id)
+		case 5:
+			p.Path = fmt.Sprintf("/r%d/\rX-Injected:1", id)
+		case 6:
+			p.Fields = append(p.Fields, href.Field{"X-Dup", "1"}, href.Field{"x-dup", "2"}, href.Field{"X-DUP", "3"})
+		case 7:
+			p.Fields = append(p.Fields, href.Field{"X-Long", strings.Repeat("v", 3000)})
+		case 8:
+			p.Fields = append(p.Fields, href.Field{"X-Tab", "a\tb  c"})
+		}
+		e.s.Probe("hostile_request")
+	}
+	if e.spoof {
+		// C29: headers a client could use to pretend another address
+		for _, h := range []string{"X-Real-Ip", "X-Real-Port", "X-Forwarded-For", "X-Forwarded-Port", "Clientip", "X-Bfe-Ip"} {
+			if tp.Chance(1, 2, "spoof_hdr") {
+				v := []string{"6.6.6.6", "10.9.9.9", "not-an-ip", "1.2.3.4, 5.6.7.8", "65000"}[tp.Draw(5, "spoof_val")]
+				p.Fields = append(p.Fields, href.Field{h, v})
+			}
+		}
+	}
+	if e.accEnc {
+		if v := []string{"", "gzip", "br", "gzip, br", "identity", "deflate", "gzip;q=0"}[tp.Draw(7, "accept_encoding")]; v != "" {
+			p.Fields = append(p.Fields, href.Field{"Accept-Encoding", v})
+		}
 	}
 	// hop-by-hop material (C26): fixed list members and fields named by Connection
 	if tp.Chance(1, 3, "hop") {
@@ -561,6 +604,9 @@ func (e *eng) runClient(ci int, pipeline int) func() {
 	return func() {
 		cr := e.clients[ci]
 		addr := fmt.Sprintf("192.0.2.%d:%d", 10+ci, 5000+ci)
+		if ci < len(e.peerAddr) && e.peerAddr[ci] != "" {
+			addr = e.peerAddr[ci]
+		}
 		conn := e.n.connect(addr)
 		defer conn.Close()
 		pause := 0
